@@ -391,7 +391,8 @@ def check_views(ctx, unit):
              "character pointer is dominated by index < length (or index-1 with index > 0 counting down from length)", 6)
     ctx.rule("B5.substring-assert", "sub_string() guards its pointer arithmetic with an assertion that cannot wrap: no sum "
              "of two caller-controlled operands is compared against the length", 1)
-    ctx.rule("E.prefix-suffix-guard", "starts_with()/ends_with() call sub_string() only under other.size() <= size()", 2)
+    ctx.rule("E.prefix-suffix-guard", "starts_with()/ends_with() call sub_string(from, n) only where n <= size() - from is known on that path "
+             "(other.size() <= size(), with from = 0 or from = size() - other.size())", 2)
     ctx.rule("E.compare-length-first", "both compare() overloads decide on the lengths before touching characters and walk "
              "exactly length characters", 2)
     for rec in recs_of(unit, VIEW):
@@ -411,8 +412,11 @@ def check_views(ctx, unit):
                 owners = {base[:-1]} | ({("this",)} if lens_equal else set())
                 key = tuple(sorted(owners))
                 if key not in runs:
-                    def is_len(x, owners=owners):
+                    def is_len(x, owners=owners, f=f):
                         x = std_unwrap(x)
+                        if x.kind == "DeclRefExpr" and x.get("local"):
+                            # the length held in a once-initialised local (`const size_t num_chars = chars.size();`)
+                            x = std_unwrap(RA.resolve_local(f, x))
                         px = path(x)
                         if px and px[-1] == "_length" and px[:-1] in owners and x.kind == "MemberExpr":
                             return True
@@ -548,33 +552,65 @@ def check_views(ctx, unit):
                 calls = [n for n in f.events() if n.is_call() and n.callee and n.callee["n"] == "sub_string"]
                 ok = bool(calls)
                 op_ = f.params()[0]["d"]
+                bm_ = f.bind_map()
+
+                def term(x, depth=0):
+                    """normal form of a length expression: ('len', 'this'|'other'), ('c', k), ('-', a, b), or its text"""
+                    x = std_unwrap(RA.resolve_local(f, std_unwrap(x)))
+                    hops = 0
+                    while x.kind == "DeclRefExpr" and x.d.get("d") in bm_ and hops < 6:     # parameter of a folded helper
+                        x, hops = std_unwrap(RA.resolve_local(f, std_unwrap(f.node(bm_[x.d["d"]])))), hops + 1
+                    if depth > 8:
+                        return canon(x)
+                    c = x.cv() if x.kind not in ("DeclRefExpr", "MemberExpr") else None
+                    if c is not None:
+                        return ("c", c)
+
+                    def who(o):
+                        o = std_unwrap(o)
+                        hops = 0
+                        while hops < 8:
+                            if o.kind in ("CXXConstructExpr", "CXXTemporaryObjectExpr", "MaterializeTemporaryExpr", "CXXBindTemporaryExpr"):
+                                src = o.args if o.kind in ("CXXConstructExpr", "CXXTemporaryObjectExpr") else o.children
+                                if len(src) != 1:
+                                    break
+                                o, hops = std_unwrap(src[0]), hops + 1
+                            elif o.kind == "DeclRefExpr" and o.d.get("d") in bm_:
+                                o, hops = std_unwrap(f.node(bm_[o.d["d"]])), hops + 1     # a by-value view parameter is a copy
+                            else:
+                                break
+                        if o.kind == "CXXThisExpr" or (o.kind == "UnaryOperator" and o.op == "*" and o.children and std_unwrap(o.children[0]).kind == "CXXThisExpr"):
+                            return "this"
+                        if o.kind == "DeclRefExpr" and o.d.get("d") == op_:
+                            return "other"
+                        return None
+                    if x.kind == "CXXMemberCallExpr" and x.callee and x.callee["n"] == "size" and x.child("obj") is not None:
+                        w_ = who(x.child("obj"))
+                        if w_:
+                            return ("len", w_)
+                    if x.kind == "MemberExpr" and x.get("m") == "_length" and x.children:
+                        w_ = who(x.children[0])
+                        if w_:
+                            return ("len", w_)
+                    if x.kind == "BinaryOperator" and x.op == "-":
+                        return ("-", term(x.children[0], depth + 1), term(x.children[1], depth + 1))
+                    return canon(x)
+                LT = ("len", "this")
                 for c in calls:
+                    F, S = term(c.args[-2]), term(c.args[-1])
                     g = False
                     for cond, truth in flow.facts_at(f, c.id):
                         rel = flow.fact_relation(cond, truth)
                         if rel is None or rel[1] not in ("<=", "<"):
                             continue
-                        a, b = std_unwrap(RA.resolve_local(f, rel[0])), std_unwrap(RA.resolve_local(f, rel[2]))
-                        # other.size() <= this->size()
-                        def is_size_of(x, who):
-                            if not (x.kind == "CXXMemberCallExpr" and x.callee and x.callee["n"] == "size"):
-                                return False
-                            o = std_unwrap(x.child("obj"))
-                            # a by-value view parameter of a folded helper is a copy of the caller's view
-                            hops = 0
-                            while o.kind in ("CXXConstructExpr", "CXXTemporaryObjectExpr", "MaterializeTemporaryExpr",
-                                             "CXXBindTemporaryExpr") and hops < 6:
-                                src = o.args if o.kind in ("CXXConstructExpr", "CXXTemporaryObjectExpr") else o.children
-                                if len(src) != 1:
-                                    break
-                                o, hops = std_unwrap(src[0]), hops + 1
-                            if who == "this":
-                                return o.kind == "CXXThisExpr"
-                            return o.kind == "DeclRefExpr" and o.d["d"] == op_
-                        if is_size_of(a, "other") and is_size_of(b, "this"):
+                        A, B = term(rel[0]), term(rel[2])
+                        if A != S:
+                            continue
+                        # S <= len - F (with F = 0: S <= len), or S <= len with F = len - S
+                        if (B == LT and F in (("c", 0), ("-", LT, S))) or B == ("-", LT, F):
                             g = True
                     ok = ok and g
-                ctx.inst("E.prefix-suffix-guard", f.sig, ok, f.loc, "sub_string reached only when other.size() > size() is false: %s" % ok, f)
+                ctx.inst("E.prefix-suffix-guard", f.sig, ok, f.loc, "sub_string(from, n) reached only where n <= size() - from is known (n <= size() for from = 0 or from = size() - n): %s" % ok, f)
     for rec in recs_of(unit, STR):
         for f in cls_fns(unit, rec["qn"]):
             if f.name != "compare":
